@@ -60,6 +60,40 @@ Definition cmd_docf (s : bytes) : bytes :=
     ++ str " edit_de=" ++ v ++ str " slice=" ++ v
   else str "utf8=no slice=err".
 
+(* docv: toml::from_str::<Value> / str::parse::<toml::Table> decode the same data (de/*.rs walk the tree) *)
+Definition cmd_docv (s : bytes) : bytes :=
+  match parse_document s with
+  | POk d => str "ok edit=" ++ show_tbl (doc_root d) ++ str " same=yes"
+  | PErr _ _ => str "err"
+  | PPanic _ => str "PANIC-model"
+  end.
+
+(* rt: parse, print without edits, re-parse the printed text, print again *)
+Definition print_doc (s : bytes) (d : doc) : option bytes :=
+  match tbl_despan s (doc_root d), raw_despan s (doc_trailing d) with
+  | Some r, Some t => Some (display_document r t)
+  | _, _ => None
+  end.
+Definition cmd_rt (s : bytes) : bytes :=
+  match parse_document s with
+  | POk d =>
+    match print_doc s d with
+    | None => str "PANIC-despan"
+    | Some p1 =>
+      str "ok print=" ++ show_hex p1 ++
+      (match parse_document p1 with
+       | POk d2 =>
+         str " reparse=" ++ (if bytes_eqb (show_tbl (doc_root d2)) (show_tbl (doc_root d)) then str "same" else str "DIFF")
+         ++ str " fix=" ++ (match print_doc p1 d2 with
+                            | Some p2 => if bytes_eqb p2 p1 then str "yes" else str "no"
+                            | None => str "no" end)
+       | _ => str " reparse=ERR fix=no"
+       end)
+    end
+  | PErr _ _ => str "err"
+  | PPanic _ => str "PANIC-model"
+  end.
+
 (* val: Value::from_str; decoded value and its Display *)
 Definition cmd_val (s : bytes) : bytes :=
   match parse_value_raw s with
@@ -83,5 +117,7 @@ Definition run_cmd (name : bytes) (args : list bytes) : bytes :=
   else if bytes_eqb name (str "dtp") then cmd_dtp args
   else if bytes_eqb name (str "doc") then match args with [s] => cmd_doc s | _ => str "bad-args" end
   else if bytes_eqb name (str "val") then match args with [s] => cmd_val s | _ => str "bad-args" end
+  else if bytes_eqb name (str "docv") then match args with [s] => cmd_docv s | _ => str "bad-args" end
+  else if bytes_eqb name (str "rt") then match args with [s] => cmd_rt s | _ => str "bad-args" end
   else if bytes_eqb name (str "docf") then match args with [s] => cmd_docf s | _ => str "bad-args" end
   else str "unknown-command".
